@@ -17,7 +17,7 @@ import vt.world as VW
 ID = 'C08'
 KIND = 'explorer'
 LEVEL = 'model_checking'
-BUDGET = {'quick': 120, 'thorough': 1200}
+BUDGET = {'quick': 900, 'thorough': 10800}
 RULE = ('the real circusd.main() runs in-process (argv patched, loop.start() handed to the explorer, SystemExit captured) on '
         'configurations {1-2 watchers, obedient/stubborn workers, watcher and global warmup, 0-2 managed sockets (real inet + '
         'unix), pid file, an on-demand watcher whose socket-triggered start is in progress}; after <= 2 requests, ONE termination event from {quit request, SIGTERM, SIGINT, SIGQUIT} is '
@@ -48,7 +48,7 @@ def scenarios(tier):
             out.append(Scenario('main', pre=pre, pidfile=True, E=1 if tier == 'quick' else 1, **c))
     # an on-demand watcher on a managed socket: a client connects after the initial start, so the watcher's background
     # start (not an exclusive operation; paced by its warmup delay) is in progress when the termination event arrives
-    for pat in (['obedient'] if tier == 'quick' else ['obedient', 'stubborn']):
+    for pat in ['obedient', 'stubborn']:
         out.append(Scenario('main', pre='none', pidfile=True, E=1, nw=1, pat=pat, w=0, gw=0, socks=1, od=True))
     if tier != 'quick':
         out.append(Scenario('main', pre='none', pidfile=True, E=2, nw=2, pat='stubborn', w=0, gw=0, socks=1))
